@@ -142,7 +142,7 @@ func renderD(v ssa.Value, d int) string {
 		}
 		return n + "(" + strings.Join(as, ",") + ")"
 	case *ssa.Phi:
-		return "φ" + x.Comment
+		return "φ"
 	case *ssa.Alloc:
 		return "&" + x.Comment
 	case *ssa.Extract:
